@@ -626,7 +626,12 @@ impl<'tcx> Dumper<'tcx> {
                         });
                         if let Some(inner) = inner {
                             if let ExprKind::Match(_, [_none, some], MatchSource::ForLoopDesugar) = self.peel(inner).kind {
-                                if let PatKind::TupleStruct(_, [p], _) = some.pat.kind {
+                                let some_pat: Option<&hir::Pat<'tcx>> = match some.pat.kind {
+                                    PatKind::TupleStruct(_, [p], _) => Some(p),
+                                    PatKind::Struct(_, [f], _) => Some(f.pat),
+                                    _ => None,
+                                };
+                                if let Some(p) = some_pat {
                                     o.s("k", "for");
                                     self.span_info(&mut o, e.span, pc);
                                     let ps = self.pat(cx, p);
